@@ -3,6 +3,9 @@ package smtp
 import (
 	"net"
 
+	gosmtp "github.com/emersion/go-smtp"
+	"github.com/foxcpp/maddy/internal/verifsim/simrt"
+
 	"github.com/foxcpp/maddy/framework/dns"
 	"github.com/foxcpp/maddy/internal/limits"
 	"github.com/foxcpp/maddy/internal/msgpipeline"
@@ -18,3 +21,5 @@ func (endp *Endpoint) VerifSetResolver(r dns.Resolver) { endp.resolver = r }
 func (endp *Endpoint) VerifLimits() *limits.Group              { return endp.limits }
 func (endp *Endpoint) VerifPipeline() *msgpipeline.MsgPipeline { return endp.pipeline }
 func (endp *Endpoint) VerifCloseServer()                       { endp.serv.Close() }
+
+func init() { gosmtp.VerifLock = simrt.Lock }
